@@ -60,7 +60,13 @@ Init == \E ty \in TypeSet, k \in Variants : \E pres \in PresSetT(ty) :
 Next == UNCHANGED c
 Spec == Init /\ [][Next]_c
 
-Emit == PrintT(<<"RENDER", ToJson([ty |-> c.ty, v |-> c.v, tokens |-> Tokens(c.ty, c.v)])>>)
+\* Formatter flags: every Display impl writes its parts with "{}" (write!(f, "{}", part)), so precision, width, fill and
+\* alignment requested by the caller never reach a number: the rendering is a function of the type and the value only,
+\* and "every printed number parses back to the stored value" holds under every format spec, not only "{}".
+FormatSpecs == <<"{}", "{:.2}", "{:>40}", "{:<40.1}", "{:^9.0}", "{:012.3}">>
+RenderWith(spec, ty, v) == Tokens(ty, v)
+SpecIndependent == \A i \in 1..Len(FormatSpecs) : RenderWith(FormatSpecs[i], c.ty, c.v) = Tokens(c.ty, c.v)
+Emit == PrintT(<<"RENDER", ToJson([ty |-> c.ty, v |-> c.v, tokens |-> Tokens(c.ty, c.v), specs |-> FormatSpecs])>>)
 
 \* model-level sanity: number of numeric tokens = number of stored scalars of present parts
 RECURSIVE Leaves(_, _)
@@ -80,7 +86,7 @@ Leaves(ty, v) ==
                T[i \in 0..Len(fs)] == IF i = 0 THEN 0 ELSE T[i - 1] + cnt(fs[i])
            IN  T[Len(fs)]
 NumToks(ts) == Cardinality({i \in 1..Len(ts) : ts[i][1] = "n"})
-EveryPartPrintedOnce == NumToks(Tokens(c.ty, c.v)) = Leaves(c.ty, c.v)
+EveryPartPrintedOnce == NumToks(Tokens(c.ty, c.v)) = Leaves(c.ty, c.v) /\ SpecIndependent
 
 ---------------------------------------------------------------------------
 ScalarKinds == {"Dual", "Dual2", "Dual3", "HyperDual", "HHD"}
